@@ -565,6 +565,10 @@ type Case struct {
 	// Seq: a two-document sequence (see sequence_test.go); the other fields
 	// except Cipher and Len are unused then.
 	Seq *Seq `json:"sequence,omitempty"`
+	// Rand: Encrypt under a faulty crypto/rand.Reader; Many: the family of
+	// consecutive Encrypts in one process (random_test.go).
+	Rand *RandFault `json:"rand_fault,omitempty"`
+	Many int        `json:"consecutive_encrypts,omitempty"`
 }
 
 // eofLike is an error that is not io.EOF but reports Is(io.EOF).
@@ -791,6 +795,16 @@ func run(r *enumx.Run, replay *enumx.ReplayCase) {
 		if err := json.Unmarshal(replay.Case, &c); err != nil {
 			panic(err)
 		}
+		if c.Rand != nil || c.Many > 0 {
+			vs := runRandFault(&c)
+			if c.Many > 0 {
+				vs = runManyDocs(&c)
+			}
+			for _, v := range vs {
+				r.Violation(v.key, fmt.Sprintf("%s: %s\ncase: %s", v.class, v.msg, c.String()), &c)
+			}
+			return
+		}
 		if c.Seq != nil {
 			if v := runSeq(&c); v.class != "" {
 				r.Violation(v.key, fmt.Sprintf("%s: %s\ncase: %s", v.class, v.msg, c.String()), &c)
@@ -810,7 +824,7 @@ func run(r *enumx.Run, replay *enumx.ReplayCase) {
 		}
 		return
 	}
-	r.Rule("each evaluation gives one mutated document (or one faulty source) to kit's Decrypt and reads the stream to its end; oracle: the bytes read before the first error are a prefix of the original plaintext, and the stream ends in a non-EOF error unless they are the whole plaintext; a source fault always ends in an error. Documents: reference-built, 2 ciphers x plaintext lengths {0,1,40,65536,65537,131077}. Single mutations: every bit of every byte (3 small documents) / every bit of the first, last-content and line-feed byte of each header line and of the first and last byte of each segment body and tag (large); truncation to every length (small) / within +-17 of every header-line and segment end (large); extension by 1,16,17,65552 bytes (zeros, copy of the tail); segment delete/duplicate/swap/move-last-forward/append; splice of every segment of donor documents (same key+prefix, same key other prefix, other key; all six lengths) over every segment; unwrap returning a wrong 32-byte key, a 16-byte key, nothing, an error; forged all-zero-key documents with stale or recomputed MAC; ten edits of the text header (whitespace, member order, key name, cipher id, nonce prefix, wrapped key, extra member, MAC padding bits, MAC under the zero key, CRLF). Compound: all ordered pairs over {boundary truncations, bit-flip classes, segment operations} on the two-segment document, the second mutation taken from the alphabet of the already mutated bytes. Faults: sticky non-EOF source error at every Read index, with and without data on the failing call, under default and 1-byte chunking (1-byte chunking on the large documents: quick takes the indexes within +-17 of every header-line, tag and segment boundary; thorough takes every index up to the one-full-segment document and the boundary neighbourhoods plus every 16th index of the two- and three-segment documents). Caller memory: the caller zeroes / overwrites the slice its unwrap function returned right after Decrypt returns (immediately or after one yield; sequential, GOMAXPROCS(1)) on pristine documents and on genuine headers followed by payloads sealed under the zero key / the other key. Two-document sequences: every ordered pair (first Decrypt: own or attacker's document (other file key, same nonce prefix and cipher) intact, broken in each segment, truncated, segment-operated, read to the end / abandoned unread / read partially then dropped; second Decrypt: the pristine document and its tampered variants incl. the genuine header followed by the attacker's payload or segments) must be judged by the oracle, and come out, exactly as the second document run alone (each on fresh nonce prefixes, so that no state is shared by construction). A case is trivial when the mutation leaves the bytes unchanged.")
+	r.Rule("each evaluation gives one mutated document (or one faulty source) to kit's Decrypt and reads the stream to its end; oracle: the bytes read before the first error are a prefix of the original plaintext, and the stream ends in a non-EOF error unless they are the whole plaintext; a source fault always ends in an error. Documents: reference-built, 2 ciphers x plaintext lengths {0,1,40,65536,65537,131077}. Single mutations: every bit of every byte (3 small documents) / every bit of the first, last-content and line-feed byte of each header line and of the first and last byte of each segment body and tag (large); truncation to every length (small) / within +-17 of every header-line and segment end (large); extension by 1,16,17,65552 bytes (zeros, copy of the tail); segment delete/duplicate/swap/move-last-forward/append; splice of every segment of donor documents (same key+prefix, same key other prefix, other key; all six lengths) over every segment; unwrap returning a wrong 32-byte key, a 16-byte key, nothing, an error; forged all-zero-key documents with stale or recomputed MAC; ten edits of the text header (whitespace, member order, key name, cipher id, nonce prefix, wrapped key, extra member, MAC padding bits, MAC under the zero key, CRLF). Compound: all ordered pairs over {boundary truncations, bit-flip classes, segment operations} on the two-segment document, the second mutation taken from the alphabet of the already mutated bytes. Faults: sticky non-EOF source error at every Read index, with and without data on the failing call, under default and 1-byte chunking (1-byte chunking on the large documents: quick takes the indexes within +-17 of every header-line, tag and segment boundary; thorough takes every index up to the one-full-segment document and the boundary neighbourhoods plus every 16th index of the two- and three-segment documents). Caller memory: the caller zeroes / overwrites the slice its unwrap function returned right after Decrypt returns (immediately or after one yield; sequential, GOMAXPROCS(1)) on pristine documents and on genuine headers followed by payloads sealed under the zero key / the other key. Two-document sequences: every ordered pair (first Decrypt: own or attacker's document (other file key, same nonce prefix and cipher) intact, broken in each segment, truncated, segment-operated, read to the end / abandoned unread / read partially then dropped; second Decrypt: the pristine document and its tampered variants incl. the genuine header followed by the attacker's payload or segments) must be judged by the oracle, and come out, exactly as the second document run alone (each on fresh nonce prefixes, so that no state is shared by construction). Randomness: Encrypt under a crypto/rand.Reader that fails at its k-th Read, returns short reads or (0,nil) once must return an error or seal under a file key without a run of 16 zero bytes and a nonce prefix that is not all-zero; 460 (thorough 2000) consecutive Encrypts per cipher must use pairwise distinct file keys and nonce prefixes, none degenerate. A case is trivial when the mutation leaves the bytes unchanged.")
 
 	t0 := time.Now()
 	lap := func(name string) {
@@ -987,6 +1001,34 @@ func run(r *enumx.Run, replay *enumx.ReplayCase) {
 		r.Space(fmt.Sprintf("caller memory: %d runs = 12 documents x {zeroed, overwritten with another key} x {immediately, after one yield} x {pristine, whole payload / each segment from the zero-key and the other-key document}; sequential under GOMAXPROCS(1)", len(wcases)))
 		r.Sample(wcases[len(wcases)/2])
 		lap("caller-memory")
+	}
+
+	// ---- R: the randomness Encrypt draws the file key and nonce prefix from
+	// (random_test.go). Sequential: crypto/rand.Reader is process-wide.
+	{
+		n := 0
+		for _, c := range enumRandFaults() {
+			for _, v := range runRandFault(c) {
+				r.Violation(v.key, fmt.Sprintf("%s: %s\ncase: %s", v.class, v.msg, c.String()), c)
+			}
+			r.Count(int64(c.Rand.Docs), int64(c.Rand.Docs))
+			n++
+		}
+		r.Space(fmt.Sprintf("CSPRNG faults: %d faulty readers (error at Read k=0..3 with and without data, whole or 16-byte reads; short reads of 1 and n-1 bytes; (0,nil) once at k=0..2) x 2 ciphers x 4 consecutive Encrypts each; sequential", n))
+		many := 460
+		if r.Thorough() {
+			many = 2000
+		}
+		for cph := 1; cph <= 2; cph++ {
+			c := &Case{Cipher: cph, Len: 5, FailAt: -1, Many: many}
+			for _, v := range runManyDocs(c) {
+				r.Violation(v.key, fmt.Sprintf("%s: %s\ncase: %s", v.class, v.msg, c.String()), c)
+			}
+			r.Count(int64(many), int64(many))
+		}
+		r.Space(fmt.Sprintf("consecutive Encrypts: %d tiny documents per cipher in a row in one process: file keys (as the wrap function sees them) and nonce prefixes pairwise distinct, no run of 12 zero bytes in a key, no all-zero prefix, each document decrypts", many))
+		r.Sample(&Case{Cipher: 1, Len: 5, FailAt: -1, Rand: &RandFault{Mode: "fail", K: 1, Max: 16, Docs: 4}})
+		lap("randomness")
 	}
 
 	// ---- Q: two-document sequences (sequence_test.go)
